@@ -68,6 +68,24 @@ FnOthers == {X, Y, Z, Anon, a, b, Atom("a b"), Atom("a, b"), Atom("a b!"), Atom(
              Flt(3, -2), IntT(36), IntT(1), Cx("f", <<a>>), Lst(<<a>>), EmptyList}
            \cup FnTerms
 
+P(x, y, z) == <<x, y, z>>
+(* ---- arithmetic (C12): argument lists of 1-4 exact numbers ---- *)
+NumsT == {IntT(0), IntT(1), IntT(-3), IntT(7), IntT(2), IntE(1, 62), IntE(-1, 63), IntE(1, 40),
+          Flt(0, 0), Flt(1, -1), Flt(3, -1), Flt(-5, -2), Flt(1, 40), Flt(1, -30)}
+NumsQ == {IntT(0), IntT(-3), IntT(7), IntT(2), IntE(1, 62), Flt(0, 0), Flt(3, -1), Flt(-5, -2)}
+Nums4 == {IntT(7), IntT(-3), IntT(2), Flt(1, -1), IntT(0)}
+ArOps == {"add", "subtract", "multiply", "divide"}
+ArithInits ==
+    LET N == IF Thorough THEN NumsT ELSE NumsQ IN
+         {InitU(<<<<Z, Fn(op, <<n1>>)>>>>, P(NoT, NoT, NoT)) : op \in ArOps, n1 \in NumsT}
+    \cup {InitU(<<<<Z, Fn(op, <<n1, n2>>)>>>>, P(NoT, NoT, NoT)) : op \in ArOps, n1 \in NumsT, n2 \in NumsT}
+    \cup {InitU(<<<<Z, Fn(op, <<n1, n2, n3>>)>>>>, P(NoT, NoT, NoT)) : op \in ArOps, n1 \in N, n2 \in N, n3 \in N}
+    \cup {InitU(<<<<Z, Fn(op, <<n1, n2, n3, n4>>)>>>>, P(NoT, NoT, NoT)) :
+              op \in ArOps, n1 \in Nums4, n2 \in Nums4, n3 \in (IF Thorough THEN Nums4 ELSE {IntT(2), Flt(1, -1)}), n4 \in Nums4}
+    \cup {InitU(<<<<Z, Fn(op, <<X, Y>>)>>>>, P(n1, n2, NoT)) : op \in ArOps, n1 \in N, n2 \in N}          \* bound variables
+    \cup {InitU(<<<<Fn(op, <<X, n2>>), Z>>>>, P(Y, n1, NoT)) : op \in ArOps, n1 \in N, n2 \in N}          \* chain X -> Y -> n1
+    \cup {InitU(<<<<n3, Fn(op, <<n1, n2>>)>>>>, P(NoT, NoT, NoT)) : op \in ArOps, n1 \in NumsQ, n2 \in NumsQ, n3 \in NumsQ}
+
 (* ---- the small universe of the brute-force oracle ("laws") ---- *)
 LawTerms == {a, b, IntT(1), X, Y, Anon, EmptyList,
              Cx("f", <<a>>), Cx("f", <<X>>), Cx("f", <<Y>>), Cx("f", <<Anon>>),
@@ -81,7 +99,6 @@ Ground == {a, b, IntT(1), Cx("f", <<a>>), Cx("f", <<b>>), EmptyList, Lst(<<a>>),
            Cx("g", <<a, b>>), Cx("g", <<a, a>>), Cx("f", <<Cx("f", <<a>>)>>)}
 
 (* ------------------------------ priors ---------------------------------- *)
-P(x, y, z) == <<x, y, z>>
 PriorQuick ==
   { P(NoT, NoT, NoT), P(a, NoT, NoT), P(Y, NoT, NoT), P(NoT, X, NoT),
     P(Y, a, NoT), P(NoT, NoT, Lst(<<a>>)), P(NoT, LstT(<<b>>, Z), NoT),
@@ -126,6 +143,7 @@ Inits ==
            {InitU(<<<<t, s>>>>, p) : s \in FnTerms, t \in FnOthers, p \in PriorFn} \cup
            {InitU(<<<<Cx("f", <<s>>), Cx("f", <<t>>)>>>>, P(NoT, NoT, NoT)) : s \in FnTerms, t \in FnOthers} \cup
            {InitU(<<<<Lst(<<t, a>>), Lst(<<s, a>>)>>>>, P(NoT, NoT, NoT)) : s \in FnTerms, t \in FnOthers}
+      [] Slice = "arith" -> ArithInits
       [] Slice = "laws" ->
            {InitU(<<<<s, t>>>>, p) : s \in LawTerms, t \in LawTerms, p \in PriorLaws}
 
